@@ -86,6 +86,7 @@ def run(check, prog):
     qratio(check, prog)
     tolerance_slots(check, prog)
     cluster_handoff(check, prog)
+    option_slots(check, prog)
     cluster_order_cap(check, prog)
     # "at every detector point and polarization": the lens theories place the
     # Mie series relative to the polarisation direction (rule shared with C05)
@@ -945,6 +946,61 @@ def cluster_handoff(check, prog):
                           slot, show(slots.get(slot, NONE))[:120],
                           '' if got is None else ' = %s-part of %s * %s' % (
                               got[0], got[1], c0.show(got[2]))))
+
+
+def option_slots(check, prog):
+    """H8: a solver option kept on the theory object reaches the compiled routine in
+    the slot that means that option -- slot names are read from the Fortran
+    headers on every run, the meaning of each is the table below."""
+    import os
+    from hpstatic.fortran import f2py_signatures
+    mief = os.path.join(prog.root, 'holopy/scattering/theory/mie_f/')
+    sigs = {}
+    for fn in ('mieangfuncs.f90', 'scsmfo_min.for'):
+        sigs.update(f2py_signatures(os.path.join(mief, fn)))
+    # (python entry, compiled routine) -> {Fortran dummy: option attribute}
+    TABLE = [
+        (TH + 'mie.Mie.raw_fields', 'MIE_FIELDS',
+         {'RAD': 'compute_escat_radial', 'RAD_DEP': 'full_radial_dependence'}),
+        (TH + 'multisphere.Multisphere.raw_fields', 'TMATRIX_FIELDS',
+         {'RAD': 'compute_escat_radial'}),
+        (TH + 'multisphere.Multisphere._scsmfo_setup', 'AMNCALC',
+         {'NITER': 'niter', 'EPS': 'eps', 'QEPS1': 'qeps1', 'QEPS2': 'qeps2',
+          'METH': 'meth'}),
+    ]
+    me = sym('self')
+    n = 0
+    for q, routine, want in TABLE:
+        fd = prog.func(q)
+        loc = prog.loc(q, fd)
+        sig = sigs.get(routine)
+        if not sig:
+            check.error('%s not found in the Fortran sources' % routine)
+            continue
+        missing = [d for d in want if d not in sig]
+        if missing:
+            check.error('%s has no dummy argument %s' % (routine, missing))
+            continue
+        it = Interp(prog, max_depth=0)
+        it.analyze(q)
+        calls = [c for c in it.calls if c['name'].split('.')[-1] == routine.lower()]
+        if not calls:
+            check.bad('H8-option-slots', '%s -> %s' % (q.split('.')[-2] + '.' +
+                                                        q.split('.')[-1], routine),
+                      'the compiled routine is not called', loc)
+            continue
+        for c in calls:
+            slots = dict(zip(sig, c['args']))
+            slots.update({kk.upper(): v for kk, v in c['kwargs']})
+            for dummy, opt in sorted(want.items()):
+                n += 1
+                got = slots.get(dummy)
+                check.require(got == intern(('attr', me, opt)), 'H8-option-slots',
+                              '%s slot %s' % (routine.lower(), dummy),
+                              'receives the theory\'s own `%s`' % opt, loc,
+                              fail_detail='slot %s receives %s' % (
+                                  dummy, show(got)[:100] if got else 'nothing'))
+    check.floor('option slots of compiled routines', n, 8)
 
 
 def qratio(check, prog, canon=None):
